@@ -141,9 +141,15 @@ theorem frag_put {cfg : Cfg} (h : KI (some p) s a) (hinv : Inv a.S) (hkind : a.S
     (htk : (AL.keys a.S.timers).Sublist (segKeys cfg.mss a.S.next_seq)) (x : Ack) (hok : AckOk a.S x) :
     ∃ s' a' outs, (∀ cont, runBurst p (sndPut cfg a.S.now x cont) s = runBurst p cont s') ∧ KI (some p) s' a' ∧
       a.S.ackStep x = .ok a'.S outs ∧ a'.txs = a.txs ++ outs.map txPair ∧ PutRel a.S.now a a' := by
+  have hfid : ¬ x.fid < 10000 := Nat.not_lt.mpr hok.1
+  by_cases hst : x.ackno < a.S.last_ack
+  · -- overtaken by a later cumulative ACK: `put` returns at once
+    refine ⟨s, { a with S := a.S, txs := a.txs }, [], fun cont => ?_, h, ackStep_stale a.S x hok hst, by simp,
+      PutRel.of_S _ _ rfl rfl ⟨rfl, rfl, rfl, rfl, rfl, rfl, rfl⟩⟩
+    unfold sndPut
+    rw [if_neg hfid, rb_loadNat h.c.lack, if_pos hst]
   obtain ⟨c1, c2, c3, c4, c5, c6, c7, c8, c9, c10, c11, c12⟩ := countDup_fields a.S x.ackno
   obtain ⟨s1, r1, h1⟩ := frag_countDup (p := p) h x.ackno
-  have hfid : ¬ x.fid < 10000 := Nat.not_lt.mpr hok.1
   have hstart : ∀ cont, runBurst p (sndPut cfg a.S.now x cont) s =
       runBurst p (if (a.S.countDup x.ackno).dupack = 3 then
           ccCall CongestionControl.consecutive_dupacks_received <| sndResend a.S.now x.ackno cont
@@ -154,8 +160,8 @@ theorem frag_put {cfg : Cfg} (h : KI (some p) s a) (hinv : Inv a.S) (hkind : a.S
         else cont) s1 := by
     intro cont
     unfold sndPut
-    rw [if_neg hfid, rb_loadNat h.c.lack, rb_loadNat h.c.dup, r1]
-  rw [ackStep_unfold a.S x hok]
+    rw [if_neg hfid, rb_loadNat h.c.lack, if_neg hst, rb_loadNat h.c.dup, r1]
+  rw [ackStep_unfold a.S x hok hst]
   by_cases d3 : (a.S.countDup x.ackno).dupack = 3
   · -- the third duplicate
     have h2 := h1.set_cc (CongestionControl.consecutive_dupacks_received (a.S.countDup x.ackno).cc)
@@ -199,7 +205,7 @@ theorem frag_put {cfg : Cfg} (h : KI (some p) s a) (hinv : Inv a.S) (hkind : a.S
     · by_cases d0 : (a.S.countDup x.ackno).dupack = 0
       · -- a new ACK
         have hne := (ackStep_safe hinv x hok.1).1
-        rw [ackStep_unfold a.S x hok, if_neg d3, if_neg dgt, if_pos d0] at hne
+        rw [ackStep_unfold a.S x hok hst, if_neg d3, if_neg dgt, if_pos d0] at hne
         have hsafe : CC.ackReceivedSafe (a.S.countDup x.ackno).kind (a.S.countDup x.ackno).cc
             (TCPPacketGenerator.put_sample_rtt (a.S.countDup x.ackno).now x.ptime) (a.S.countDup x.ackno).now = true := by
           by_contra hc
